@@ -3,21 +3,21 @@ package main
 // per-property run budgets; rule and component lists come from the worker's
 // registry (reported in its summary).
 var props = map[string]propConf{
-	"C01": {Level: "exploration", Quick: 3000, Thorough: 1000000, ThoroughS: 1200},
-	"C02": {Level: "exploration", Quick: 16000, Thorough: 5000000, ThoroughS: 1500},
-	"C03": {Level: "exploration", Quick: 3000, Thorough: 1000000, ThoroughS: 1500},
-	"C04": {Level: "exploration", Quick: 3000, Thorough: 1000000, ThoroughS: 1500},
-	"C05": {Level: "fault_enumeration", Quick: 5000, Thorough: 2000000, ThoroughS: 1500},
+	"C01": {Level: "exploration", Quick: 3000, Thorough: 4000000, ThoroughS: 1200},
+	"C02": {Level: "exploration", Quick: 16000, Thorough: 12000000, ThoroughS: 1500},
+	"C03": {Level: "exploration", Quick: 3000, Thorough: 2000000, ThoroughS: 1500},
+	"C04": {Level: "exploration", Quick: 3000, Thorough: 2000000, ThoroughS: 1500},
+	"C05": {Level: "fault_enumeration", Quick: 5000, Thorough: 10000000, ThoroughS: 1500},
 	"C06": {Level: "fault_enumeration", Quick: 2000, Thorough: 500000, ThoroughS: 1500},
-	"C07": {Level: "exploration", Quick: 5000, Thorough: 2000000, ThoroughS: 1200},
-	"C08": {Level: "exploration", Quick: 4000, Thorough: 1000000, ThoroughS: 1500},
-	"C09": {Level: "exploration", Quick: 3000, Thorough: 300000, ThoroughS: 1500},
-	"C10": {Level: "exploration", Quick: 3000, Thorough: 300000, ThoroughS: 1500},
-	"C11": {Level: "exploration", Quick: 300, Thorough: 100000, ThoroughS: 1800, Race: true, Chunk: 50},
-	"C12": {Level: "exploration", Quick: 2000, Thorough: 500000, ThoroughS: 1200},
-	"C13": {Level: "exploration", Quick: 10000, Thorough: 5000000, ThoroughS: 1500},
-	"C14": {Level: "exploration", Quick: 3000, Thorough: 1000000, ThoroughS: 1200},
-	"C15": {Level: "exploration", Quick: 2000, Thorough: 100000, ThoroughS: 1500},
-	"C19": {Level: "fault_enumeration", Quick: 3000, Thorough: 200000, ThoroughS: 1500},
-	"C20": {Level: "exploration", Quick: 2000, Thorough: 100000, ThoroughS: 1500},
+	"C07": {Level: "exploration", Quick: 5000, Thorough: 12000000, ThoroughS: 1200},
+	"C08": {Level: "exploration", Quick: 4000, Thorough: 8000000, ThoroughS: 1500},
+	"C09": {Level: "exploration", Quick: 3000, Thorough: 4000000, ThoroughS: 1500},
+	"C10": {Level: "exploration", Quick: 3000, Thorough: 2000000, ThoroughS: 1500},
+	"C11": {Level: "exploration", Quick: 300, Thorough: 800000, ThoroughS: 1800, Race: true, Chunk: 50},
+	"C12": {Level: "exploration", Quick: 2000, Thorough: 2000000, ThoroughS: 1200},
+	"C13": {Level: "exploration", Quick: 10000, Thorough: 20000000, ThoroughS: 1500},
+	"C14": {Level: "exploration", Quick: 3000, Thorough: 20000000, ThoroughS: 1200},
+	"C15": {Level: "exploration", Quick: 2000, Thorough: 2000000, ThoroughS: 1500},
+	"C19": {Level: "fault_enumeration", Quick: 3000, Thorough: 3000000, ThoroughS: 1500},
+	"C20": {Level: "exploration", Quick: 2000, Thorough: 2000000, ThoroughS: 1500},
 }
